@@ -4,10 +4,10 @@ package harness
 // transparency), C16 (results are JSON data).
 
 import (
-	"strconv"
 	"encoding/json"
 	"fmt"
 	"reflect"
+	"strconv"
 	"strings"
 	"testing"
 
@@ -153,6 +153,11 @@ func genUnsortedDoc(t *rapid.T) interface{} {
 	}
 	nums := []interface{}{3.0, 1.0, 2.0, 1.0}
 	strs := []interface{}{"c", "a", "b"}
+	if !moderateOnly && uni(t, 4, "hardNums") == 0 {
+		// numbers and text whose representation matters (exponent form, both zeros, 17 digits, astral characters)
+		nums = []interface{}{3.0, hardDocNumbers[uni(t, len(hardDocNumbers), "hn1")], negZero(), 0.0, hardDocNumbers[uni(t, len(hardDocNumbers), "hn2")], 2.0}
+		strs = []interface{}{"c", hardDocStrings[uni(t, len(hardDocStrings), "hs1")], "a", hardDocStrings[uni(t, len(hardDocStrings), "hs2")]}
+	}
 	if uni(t, 4, "bigNums") == 0 {
 		m := bigSize(t, "numsN")
 		nums, strs = nil, nil
@@ -187,6 +192,8 @@ var c06Templates = []string{
 	"map(&age, people)", "people[*].tags | [0]", "people[?age > `1`] | sort_by(@, &age)", "sort_by(people, &age)[0].tags", "people[::-1]",
 	"nested[] | sort(@)", "not_null(nums, strs)", "values(o1)", "keys(o1)", "people | sort_by(@, &to_string(age))", "[nums, strs][] | reverse(@)",
 	"sort_by(people[*], &age)", "people[*].{n: name, t: sort(tags)}", "sort_by(nested[?type(@)=='array'], &length(@))", "o1.j | sort(@) | reverse(@)",
+	"to_string(nums)", "to_string(@)", "nums[*].to_string(@)", "map(&to_string(@), nums)", "to_string(nums[1])", "[to_string(nums[2]), to_string(nums[3])]", "strs[*].to_number(@)", "map(&to_number(@), strs)", "strs[*].reverse(@)", "strs[*].length(@)",
+	"sort(nums) | to_string(@)", "to_string(people)", "{a: to_string(nums), b: nums}", "nums[*].abs(@)", "nums[*].ceil(@)", "nums[*].floor(@)", "max(nums)", "min(nums)", "sort_by(nums, &@)", "nums[?@ < `0`]", "nums[?@ >= `0`]",
 	"max_by(people, &age).tags | sort(@)", "join(',', strs)", "sum(nums)", "avg(nums)", "contains(nums, `1`)", "max(nums)", "min(strs)", "sort(strs) | join('', @)", "length(nums)", "sort_by(people, &age) | [0] | merge(@, o1)",
 }
 
@@ -310,6 +317,7 @@ var c16EdgeArgs = []string{"`[1]`", "`[\"a\"]`", "`[2,1]`", "`[{}]`", "`{\"a\":[
 
 // TestC16: all functions weighted equally, closure-threatening inputs injected often.
 func TestC16(t *testing.T) {
+	moderateOnly = true // the property quantifies over documents whose sums cannot overflow
 	rapid.Check(t, func(t *rapid.T) {
 		doc := genDoc(t)
 		var expr string
